@@ -58,7 +58,9 @@ ALL_OPS = ["CtorDefault", "CtorFill", "CtorSub", "CtorSeq", "Overlay", "AssignFi
 IO_OPS = {"StreamOut", "StreamIn", "GetLine"}     # the stream operators exist for char only
 PAIR_MUTATORS = {"Swap"}          # may change the other object too (besides anything with an "objm" operand)
 
-ALIAS_KINDS = ("self", "selfp", "selfz", "selfit")
+ALIAS_KINDS = ("self", "selfp", "selfz", "selfit", "selfmit", "selfrit")
+SELF_IT_KINDS = ("selfit", "selfmit", "selfrit")
+IT_KINDS = ["itv", "itl", "itp", "itpm", "its"]        # iterator pairs of other containers: const / mutable pointers, std::string::iterator
 
 # Findings this check proposes as open entries of known_findings.json (the coordinator owns that file).  While an
 # entry is not listed there and its probes still fail, the check prints PENDING-FINDING (exit status unaffected);
@@ -80,7 +82,17 @@ _ABCD = {"op": "AssignSeq", "k": 1, "a": {"ov": "assign", "sk": "ptr", "src": [9
 # ranges) was found by this check in round 2 and is repaired in /repo (d2d1dcc, proposed_fixes/C01-06).  A repaired
 # finding suppresses nothing: the list of proposed entries is empty again and its probes are ordinary directed
 # executions (ALIAS_DIRECTED) that must be accepted like any other.
-PROPOSED_OPEN = []
+# Round 3: C01-reverse-self-range - the iterator-range overloads given REVERSE iterators over the string's own characters
+# (s.assign(s.rbegin(), s.rend()), insert / replace likewise): is_inside() knows pointers only, so the source is read
+# while / after it is overwritten ("abcd" -> "dccd" where std::basic_string gives "dcba").  proposed_fixes/C01-07.
+PROPOSED_OPEN = [
+    {"id": "C01-reverse-self-range", "property": "C01", "key": "C01 iterator-range overloads with reverse iterators into the string itself",
+     "what": "assign / insert / replace(first, last) given reverse iterators over the object's own characters read the source after it was "
+             "overwritten (is_inside() does not recognise reverse iterators); proposed_fixes/C01-07-reverse-self-range.patch",
+     "match": {"sk": "selfrit"},
+     "probes": [{"cfg": _P16, "script": [_rs(_P16), _ABCD, {"op": "AssignSeq", "k": 1, "a": {"ov": "assign", "sk": "selfrit", "src": [0, 4]}}]},
+                {"cfg": _P16, "script": [_rs(_P16), _ABCD, {"op": "InsertItSeq", "k": 1, "a": {"it": 1, "sk": "selfrit", "src": [2, 2]}}]}]},
+]
 ALIAS_DIRECTED = [
     (_P16, [_rs(_P16), _ABCD, {"op": "AssignSub", "k": 1, "a": {"sk": "self", "src": [], "pos": 1, "n": 2}}]),
     (_S16, [_rs(_S16), _ABCD, {"op": "AssignSeq", "k": 1, "a": {"ov": "op", "sk": "selfz", "src": [2]}}]),
@@ -91,6 +103,23 @@ ALIAS_DIRECTED = [
     (_S16, [_rs(_S16), _ABCD, {"op": "Replace", "k": 1, "a": {"pos": 0, "n": 2, "sk": "selfp", "src": [1, 3]}}]),
     (_P16, [_rs(_P16), _ABCD, {"op": "ReplaceIt", "k": 1, "a": {"f": 0, "l": 1, "sk": "selfit", "src": [1, 3]}}]),
 ]
+_ABCDEF = {"op": "AssignSeq", "k": 1, "a": {"ov": "assign", "sk": "ptrn", "src": [97, 98, 99, 100, 101, 102]}}
+for _c in (_P16, _S16, _F300):
+    for _sk in ("selfit", "selfmit"):
+        for _it, _src in ((1, [3, 3]), (4, [0, 3]), (2, [1, 3]), (0, [0, 6]), (6, [2, 2]), (3, [3, 1])):
+            ALIAS_DIRECTED.append((_c, [_rs(_c), _ABCDEF, {"op": "InsertItSeq", "k": 1, "a": {"it": _it, "sk": _sk, "src": _src}}]))
+        for _f, _l, _src in ((1, 2, [3, 3]), (4, 6, [0, 3]), (1, 4, [2, 3]), (0, 0, [3, 3]), (2, 2, [0, 2]), (0, 6, [1, 4])):
+            ALIAS_DIRECTED.append((_c, [_rs(_c), _ABCDEF, {"op": "ReplaceIt", "k": 1, "a": {"f": _f, "l": _l, "sk": _sk, "src": _src}}]))
+        ALIAS_DIRECTED.append((_c, [_rs(_c), _ABCDEF, {"op": "AssignSeq", "k": 1, "a": {"ov": "assign", "sk": _sk, "src": [2, 3]}}]))
+        ALIAS_DIRECTED.append((_c, [_rs(_c), _ABCDEF, {"op": "AppendSeq", "k": 1, "a": {"ov": "append", "sk": _sk, "src": [1, 4]}}]))
+    ALIAS_DIRECTED.append((_c, [_rs(_c), _ABCDEF, {"op": "AppendSeq", "k": 1, "a": {"ov": "append", "sk": "selfrit", "src": [1, 4]}}]))
+# over-long input through the stream operators under the throwing policy (C02: length_error, nothing changed)
+_LONG = [120 + (i % 3) for i in range(19)]
+for _c in (_P16, _S16):
+    ALIAS_DIRECTED.append((_c, [_rs(_c), _ABCD, {"op": "StreamIn", "k": 1, "a": {"text": _LONG[:17]}}, {"op": "StreamIn", "k": 1, "a": {"text": _LONG[:16]}}]))
+    ALIAS_DIRECTED.append((_c, [_rs(_c), _ABCD, {"op": "GetLine", "k": 1, "a": {"text": _LONG[:18], "delim": DFLT, "rv": 0}},
+                                {"op": "GetLine", "k": 1, "a": {"text": _LONG[:19], "delim": 98, "rv": 1}},
+                                {"op": "GetLine", "k": 2, "a": {"text": _LONG[:17] + [98, 97], "delim": 98, "rv": 0}}]))
 # set by probe_pending(): ids of the proposed / listed entries whose probes fail on the tree under test
 ACTIVE = set()
 
@@ -122,7 +151,7 @@ def alias_source(ev, prestr=None, prelen=None):
             tail = list(prestr[off:])
             return ("cpy", off, [tail.index(0) if 0 in tail else len(tail)])
         return ("cpy", off, list(range(0, n - off + 1)))
-    return ("mov" if sk == "selfit" else "cpy", src[0], [src[1]])
+    return ("mov" if sk in SELF_IT_KINDS else "cpy", src[0], [src[1]])
 
 
 def alias_unsafe(ev, prestr=None, prelen=None):
@@ -181,6 +210,8 @@ def avoid(ev, lens, pre=None):
     if ev["op"] == "Resize1":
         n = ev["a"]["n"]
         return n != NPOS and n > lens[k]
+    if "C01-reverse-self-range" in ACTIVE and ev.get("a", {}).get("sk") == "selfrit" and ev["op"] in ("AssignSeq", "InsertItSeq", "ReplaceIt"):
+        return True
     if "C01-alias-moved-source" in ACTIVE and ev.get("a", {}).get("sk") in ALIAS_KINDS:
         return alias_unsafe(ev, pre[k] if pre is not None else None, lens[k])
     return False
@@ -584,8 +615,12 @@ def moved_objects(call):
 def valid_projection(pj, n):
     """an object in a valid state, whatever its value: every observer agrees with every other"""
     c = pj.get("chars")
-    return (isinstance(c, list) and pj.get("size") == len(c) == pj.get("len") == pj.get("dist") and len(c) <= n and pj.get("term") == 0
-            and pj.get("fwd") == c and pj.get("rev") == c[::-1] and pj.get("empty") == (len(c) == 0) and pj.get("g") is True and pj.get("max") == n)
+    if not (isinstance(c, list) and pj.get("size") == len(c) == pj.get("len") == pj.get("dist") and len(c) <= n and pj.get("term") == 0
+            and pj.get("fwd") == c and pj.get("rev") == c[::-1] and pj.get("empty") == (len(c) == 0) and pj.get("g") is True and pj.get("max") == n):
+        return False
+    z = c.index(0) if 0 in c else len(c)
+    return (pj.get("cd") == len(c) == pj.get("rd") == pj.get("rtn") and pj.get("slen") == z == pj.get("rts")
+            and pj.get("cp") is True and pj.get("ib") is True and pj.get("rb") is True)
 
 
 def same_outcome(call, o, res, q, n):
@@ -934,7 +969,7 @@ class Gen:
         n = self.r.choice([x for x in c if 0 <= x <= N + 2])
         if kind == "il" and n not in IL_LENS:
             n = min(n, 10)
-        nul_ok = kind in ("ptrn", "il", "itv", "itl") and not (self.strlen and store)
+        nul_ok = kind in ("ptrn", "il", "itv", "itl", "itp", "itpm", "its") and not (self.strlen and store)
         return [self.chr(nul_ok) for _ in range(n)]
 
     def ev(self, op, k, **a):
@@ -1020,7 +1055,7 @@ class Gen:
             return self.alias_emit(self.ev("AppendSub" if app else "AssignSub", k, sk="self", src=[], pos=p, n=n), k, g is None,
                                    None if g is None else (la + g if app else g))
         if t in (1, 2):
-            sk = r.choice(["self", "selfp", "selfz", "selfit"])
+            sk = r.choice(["self", "selfp", "selfz", "selfit", "selfmit", "selfrit"])
             app = t == 2
             ov = r.choice(["assign", "op"]) if sk in ("self", "selfz") else "assign"
             d = self.alias_desc(la, sk)
@@ -1043,7 +1078,7 @@ class Gen:
             return self.alias_emit(self.ev("InsertSub", k, idx=idx, sk="self", src=[], pos=p, n=n), k, bad, la + (g or 0))
         if t == 5:
             d = self.alias_desc(la, "selfit")
-            return self.alias_emit(self.ev("InsertItSeq", k, it=self.goodpos(la), sk="selfit", src=d), k, False, la + d[1])
+            return self.alias_emit(self.ev("InsertItSeq", k, it=self.goodpos(la), sk=r.choice(SELF_IT_KINDS), src=d), k, False, la + d[1])
         if t in (6, 7, 8):
             p, n = self.pos(la), self.cnt(la, la)
             er = sub(p, n)
@@ -1059,7 +1094,7 @@ class Gen:
                                        la - (er or 0) + (g or 0))
             f = self.goodpos(la)
             l = r.choice([f, f, la, min(f + 1, la), r.randint(f, la)])
-            sk = r.choice(["self", "selfp", "selfz", "selfit"])
+            sk = r.choice(["self", "selfp", "selfz", "selfit", "selfmit", "selfrit"])
             d = self.alias_desc(la, sk)
             g = la if sk == "self" else la - d[0] if sk == "selfz" else d[1]
             return self.alias_emit(self.ev("ReplaceIt", k, f=f, l=l, sk=sk, src=d), k, False, la - (l - f) + g)
@@ -1122,8 +1157,8 @@ class Gen:
                 if not self.settle(k, sub is None, sub): return None
                 return self.ev("CtorSub" if ctor else "AssignSub", k, sk=sk, src=src, pos=p, n=n)
             if t in (3, 4, 5):
-                sk = r.choice(["ptrn", "ptr", "il", "itv", "itl", "str", "obj", "objm"])
-                ov = "assign" if ctor or sk in ("ptrn", "itv", "itl") else r.choice(["assign", "op"])
+                sk = r.choice(["ptrn", "ptr", "il", "str", "obj", "objm"] + IT_KINDS)
+                ov = "assign" if ctor or sk in ["ptrn"] + IT_KINDS else r.choice(["assign", "op"])
                 src = [] if sk in ("obj", "objm") else self.seq(N, sk)
                 sl = lb if sk in ("obj", "objm") else len(src)
                 if not self.settle(k, False, sl): return None
@@ -1243,7 +1278,7 @@ class Gen:
                 if not self.settle(k, False, la + n): return None
                 return self.ev("InsertIt", k, ov="fill", it=it, n=n, ch=self.chr())
             if t == 4:
-                sk = r.choice(["il", "itv", "itl"])
+                sk = r.choice(["il"] + IT_KINDS)
                 src = self.seq(room, sk)
                 it = self.goodpos(la)
                 if not self.settle(k, False, la + len(src)): return None
@@ -1258,7 +1293,7 @@ class Gen:
                 return self.ev("AppendFill", k, n=n, ch=self.chr())
             if t == 1:
                 ov = r.choice(["append", "op"])
-                sk = r.choice(["obj", "str", "ptrn", "ptr", "il", "itv", "itl"] if ov == "append" else ["obj", "str", "ptr", "il"])
+                sk = r.choice(["obj", "str", "ptrn", "ptr", "il"] + IT_KINDS if ov == "append" else ["obj", "str", "ptr", "il"])
                 src = [] if sk == "obj" else self.seq(room, sk)
                 sl = lb if sk == "obj" else len(src)
                 if not self.settle(k, False, la + sl): return None
@@ -1297,7 +1332,7 @@ class Gen:
             f = self.goodpos(la)
             l = r.choice([f, f, la, min(f + 1, la), r.randint(f, la)])
             if t == 3:
-                sk = r.choice(["obj", "str", "ptrn", "ptr", "il", "itv", "itl"])
+                sk = r.choice(["obj", "str", "ptrn", "ptr", "il"] + IT_KINDS)
                 src = [] if sk == "obj" else self.seq(room + (l - f), sk)
                 sl = lb if sk == "obj" else len(src)
                 if not self.settle(k, False, la - (l - f) + sl): return None
@@ -1533,6 +1568,10 @@ def classify(findings):
                 continue
             if not m or not all(ev.get(x) == y or ev.get("a", {}).get(x) == y for x, y in m.items()):
                 continue
+            if "probes" in k:
+                if k["id"] not in ACTIVE:
+                    continue
+                return ("PENDING " if k.get("pending") else "") + "%s (%s)" % (k["key"], k["what"])
             if k.get("when") == "grows":
                 try:
                     prev = json.loads(execution[-2])
